@@ -235,6 +235,7 @@ t("C20", "setcontentsize-without-clamp", VW, "\tv.locked = locked\n\tv.ValidateV
 t("C20", "clamp-order-reversed", VW, "func (v *ViewPort) ValidateViewX() {\n\tif v.viewx > v.limx-v.width {\n\t\tv.viewx = v.limx - v.width\n\t}\n\tif v.viewx < 0 {\n\t\tv.viewx = 0\n\t}\n}", "func (v *ViewPort) ValidateViewX() {\n\tif v.viewx < 0 {\n\t\tv.viewx = 0\n\t}\n\tif v.viewx > v.limx-v.width {\n\t\tv.viewx = v.limx - v.width\n\t}\n}", "ValidateViewX:clamp")
 t("C20", "remove-widget-without-relayout", BL, "\tb.changed = true\n\twidget.Unwatch(b)\n\tb.layout()", "\twidget.Unwatch(b)", "RemoveWidget")
 t("C20", "no-fill-remainder-kept", BL, "\tresid := extra\n\tif totf == 0 {\n\t\tresid = 0\n\t}\n\n\tfor _, c := range b.cells {\n\t\tif c.fill > 0 {\n\t\t\tc.frac = float64(extra) * c.fill / totf\n\t\t\tc.pad = int(c.frac)\n\t\t\tc.frac -= float64(c.pad)\n\t\t\tresid -= c.pad\n\t\t}\n\t}\n\n\t// Distribute any left over padding.  We try to give it to the\n\t// the cells with the highest residual fraction.  It should be\n\t// the case that no single cell gets more than one more cell.\n\tfor resid > 0 {\n\t\tvar best *boxLayoutCell\n\t\tfor _, c := range b.cells {\n\t\t\tif c.fill == 0 {\n\t\t\t\tcontinue\n\t\t\t}\n\t\t\tif best == nil || c.frac > best.frac {\n\t\t\t\tbest = c\n\t\t\t}\n\t\t}\n\t\tbest.pad++\n\t\tbest.frac = 0\n\t\tresid--\n\t}\n\n\tx, y, yinc", "\tresid := extra\n\n\tfor _, c := range b.cells {\n\t\tif c.fill > 0 {\n\t\t\tc.frac = float64(extra) * c.fill / totf\n\t\t\tc.pad = int(c.frac)\n\t\t\tc.frac -= float64(c.pad)\n\t\t\tresid -= c.pad\n\t\t}\n\t}\n\n\t// Distribute any left over padding.  We try to give it to the\n\t// the cells with the highest residual fraction.  It should be\n\t// the case that no single cell gets more than one more cell.\n\tfor resid > 0 {\n\t\tvar best *boxLayoutCell\n\t\tfor _, c := range b.cells {\n\t\t\tif c.fill == 0 {\n\t\t\t\tcontinue\n\t\t\t}\n\t\t\tif best == nil || c.frac > best.frac {\n\t\t\t\tbest = c\n\t\t\t}\n\t\t}\n\t\tbest.pad++\n\t\tbest.frac = 0\n\t\tresid--\n\t}\n\n\tx, y, yinc", "vLayout:no-fill")
+t("C20", "share-divided-by-own-fill", "views/boxlayout.go", "\t\t\tc.frac = float64(extra) * c.fill / totf\n\t\t\tc.pad = int(c.frac)\n\t\t\tc.frac -= float64(c.pad)\n\t\t\tresid -= c.pad\n\t\t}\n\t}\n\n\t// Distribute any left over padding.  We try to give it to the\n\t// the cells with the highest residual fraction.  It should be\n\t// the case that no single cell gets more than one more cell.\n\tfor resid > 0 {\n\t\tvar best *boxLayoutCell\n\t\tfor _, c := range b.cells {\n\t\t\tif c.fill == 0 {\n\t\t\t\tcontinue\n\t\t\t}\n\t\t\tif best == nil || c.frac > best.frac {\n\t\t\t\tbest = c\n\t\t\t}\n\t\t}\n\t\tbest.pad++\n\t\tbest.frac = 0\n\t\tresid--\n\t}\n\n\tx, y, xinc", "\t\t\tc.frac = float64(extra) / totf\n\t\t\tc.pad = int(c.frac)\n\t\t\tc.frac -= float64(c.pad)\n\t\t\tresid -= c.pad\n\t\t}\n\t}\n\n\tfor resid > 0 {\n\t\tvar best *boxLayoutCell\n\t\tfor _, c := range b.cells {\n\t\t\tif c.fill == 0 {\n\t\t\t\tcontinue\n\t\t\t}\n\t\t\tif best == nil || c.frac > best.frac {\n\t\t\t\tbest = c\n\t\t\t}\n\t\t}\n\t\tbest.pad++\n\t\tbest.frac = 0\n\t\tresid--\n\t}\n\n\tx, y, xinc", "hLayout:proportional-share")
 
 # drop the placeholder teeth that were only notes
 T[:] = [x for x in T if not x["Expect"].startswith("zzz-")]
